@@ -1,8 +1,8 @@
 """C17 - input files written by the tool are schema-valid and round-trip."""
-from contracts import inputs
+from contracts import inputs, ctors  # noqa: F401
 from props.common import *  # noqa: F401,F403
 
-FUNCTIONS = inputs.TO_INPUTS + ["ghedesigner.media:GHEFluid.to_input", "ghedesigner.design:DesignBase.to_input"] + inputs.WRITE_INPUT + inputs.SETTERS + inputs.NAME_SETTERS + inputs.WORKER
+FUNCTIONS = inputs.TO_INPUTS + ctors.BOREHOLE + ["ghedesigner.media:GHEFluid.to_input", "ghedesigner.design:DesignBase.to_input"] + inputs.WRITE_INPUT + inputs.SETTERS + inputs.NAME_SETTERS + inputs.WORKER
 NATIVE_FUNCTIONS = [f"{M}:GHEManager.write_input_file"]
 NATIVE_CASES = {"quick": 60, "thorough": 3000}
 NATIVE_LIMIT_S = {"quick": 150, "thorough": 3000}
@@ -18,8 +18,8 @@ ASSUMPTIONS = [A_ENGINE, A_REAL + " - the radians/degrees and radius/diameter co
                "json.dumps / file write are modelled as recording the serialised object (ghost `_written.json_of`); JSON text formatting, float repr round trip and file I/O are exercised by the bounded runs only",
                "Pipe.place_pipes is used through an unverified caller view (pure; the pipe centre positions are not part of the input file)",
                "write_input_file is proved with a rectangle constraint object / WATER / SYSTEM flow as representatives: the dispatch to the other classes' to_input is Python method resolution, and each class's to_input is under its own contract"]
-NOT_PROVED = ["schema validity of the written file (jsonschema semantics); the bodies of set_fluid / set_borehole (external base classes; used through assumed caller views: fluid keeps "
-              "percent and temperature, borehole radius = diameter/2) and of set_geometry_constraints_bi_rectangle_constrained; JSON text and float repr: bounded run-time contract "
+NOT_PROVED = ["schema validity of the written file (jsonschema semantics); the body of set_fluid (scp fluid: external base class; used through an assumed caller view: the fluid keeps "
+              "percent and temperature) and of set_geometry_constraints_bi_rectangle_constrained (set_borehole and GHEBorehole.__init__ are verified down to the ASSUMED contract of pygfunction's Borehole.__init__); JSON text and float repr: bounded run-time contract "
               "API configuration -> write_input_file -> validate_input_file -> real loader (design run stubbed) -> state comparison -> second write byte-identical",
               "'running it produces the same design' follows from state equality plus determinism (C13); not run separately"]
 EXPLANATION = ("Each component's to_input is proved to write exactly its fields (diameter = 2 r_b, degrees = radians * 180/pi, perimeter ratio key present iff set); write_input_file is proved, for each of the "
